@@ -6,6 +6,8 @@ z3 recursive definitions by pyvc.  The reference is the column-stack offside rul
 from pyvc.dsl import SpecModule, Lazy
 from pyvc.types import *
 from pyvc.values import V
+from pyvc.native import dput, dhas
+from collections import OrderedDict as odict
 
 from annet.annlib.tabparser import BlockEnd, _CommentOrEmpty   # native sentinels (for native execution of the specs)
 
@@ -226,3 +228,69 @@ M.contract(F, "_stacked", params=dict(lines=SeqStr, comments=SeqStr), yields=Seq
            use=["nn_off_out"],
            canaries=["len(result) == 0"], inputs=_text_inputs(),
            properties=["C05", "C04"])
+
+
+# ==================================================================================================================
+# parse_to_tree: the nested-dict insertion (cursor idiom: `local_tree` walks into `tree`)
+Tree = U.dict("Tree", STR, "Tree")
+Splitter = U.opaque("Splitter")
+split = M.opaque("split", [Splitter, STR], SeqStr, impl=lambda splitter, text: list(splitter(text)), note="the vendor's line splitter (opaque)")
+
+
+@M.spec
+def tget(t: Tree, p: SeqStr) -> Tree:
+    return t if len(p) == 0 else tget(t[p[0]], p[1:])
+
+
+@M.spec
+def tset(t: Tree, p: SeqStr, k: STR, v: Tree) -> Tree:
+    return dput(t, k, v) if len(p) == 0 else dput(t, p[0], tset(t[p[0]], p[1:], k, v))
+
+
+@M.spec
+def has_path(t: Tree, p: SeqStr) -> BOOL:
+    return True if len(p) == 0 else (dhas(t, p[0]) and has_path(t[p[0]], p[1:]))
+
+
+@M.spec
+def ins(t: Tree, p: SeqStr) -> Tree:
+    """insert a path: missing nodes are created at the end of their level, existing ones keep their place (repeated lines merge)"""
+    return t if len(p) == 0 else dput(t, p[0], ins(t[p[0]] if dhas(t, p[0]) else odict(), p[1:]))
+
+
+@M.spec
+def fold_ins(stacks: SeqStack, t: Tree) -> Tree:
+    return t if len(stacks) == 0 else fold_ins(stacks[1:], ins(t, stacks[0]))
+
+
+M.lemma("ins_existing_path", vars=dict(t=Tree, p=SeqStr), hyps=["has_path(t, p)"], goal="ins(t, p) == t", induct="p",
+        pattern="ins(t, p)", ih=[dict(t="t[p[0]]")], properties=["C05"])
+M.lemma("has_path_after_create", vars=dict(t=Tree, p=SeqStr, k=STR, v=Tree), hyps=["has_path(t, p)"],
+        goal="has_path(tset(t, p, k, v), p + [k])", induct="p", pattern="tset(t, p, k, v)", ih=[dict(t="t[p[0]]")], properties=["C05"])
+M.lemma("key_present_after_create", vars=dict(t=Tree, p=SeqStr, k=STR, v=Tree), hyps=["has_path(t, p)"],
+        goal="dhas(tget(tset(t, p, k, v), p), k)", induct="p", pattern="tget(tset(t, p, k, v), p)", ih=[dict(t="t[p[0]]")], properties=["C05"])
+M.lemma("has_path_extend", vars=dict(t=Tree, p=SeqStr, k=STR), hyps=["has_path(t, p)", "dhas(tget(t, p), k)"],
+        goal="has_path(t, p + [k])", induct="p", pattern="has_path(t, p + [k])", ih=[dict(t="t[p[0]]")], properties=["C05"])
+M.lemma("create_then_insert", vars=dict(t=Tree, p=SeqStr, k=STR, s=SeqStr),
+        hyps=["has_path(t, p)", "not dhas(tget(t, p), k)", "len(s) > len(p)", "s[:len(p)] == p", "s[len(p)] == k"],
+        goal="ins(tset(t, p, k, {}), s) == ins(t, s)", induct="p", pattern="ins(tset(t, p, k, {}), s)",
+        ih=[dict(t="t[p[0]]", s="s[1:]")], properties=["C05"])
+
+M.contract(F, "<splitter>", params=dict(self=Splitter, text=STR), ret=SeqStr, trusted=True, callable_recv=True,
+           ensures=["result == split(self, text)"], note="formatter.split: opaque", properties=["C05", "C04"])
+
+M.contract(F, "parse_to_tree", params=dict(text=STR, splitter=Splitter, comments=SeqStr), defaults=dict(comments=("!", "#")), ret=Tree,
+           locals=dict(tree=Tree), cursors={"local_tree": dict(root="tree", get="tget", set="tset")},
+           calls={"splitter": None},
+           ensures=["result == fold_ins(stk_run(off_out(spec_parsed(split(splitter, text), comments), [], 0, False), []), {})"],
+           raises={"ParserError": ["off_err(spec_parsed(split(splitter, text), comments), [], 0, False)"]},
+           loops={1: dict(match="_stacked(splitter(text), tuple(comments))", inv=["fold_ins(_rest1, tree) == fold_ins(_it1, {})"]),
+                  2: dict(match="stack",
+                          inv=["cpath(local_tree) + _rest2 == stack",
+                               "has_path(tree, cpath(local_tree))",
+                               "ins(tree, stack) == ins(entry(tree), stack)",
+                               "fold_ins(_rest1, ins(entry(tree), stack)) == fold_ins(_it1, {})"])},
+           use=["ins_existing_path", "has_path_after_create", "key_present_after_create", "has_path_extend", "create_then_insert"], shards=4,
+           canaries=["len(result) == 0"], properties=["C05", "C04"])
+_qq = {c.qual: c for c in M.contracts}
+_qq["parse_to_tree"].calls["splitter"] = _qq["<splitter>"]
